@@ -15,8 +15,9 @@ from typing import Any
 
 VERIF = Path(__file__).resolve().parent.parent
 FINDINGS_FILE = VERIF / "known_findings.json"
-REPLAYS = VERIF / "replays"
-EVIDENCE = VERIF / "evidence"
+_OUT = Path(os.environ["VERIF_OUT_DIR"]) if os.environ.get("VERIF_OUT_DIR") else VERIF  # development aid, see driver.REPO_SRC
+REPLAYS = _OUT / "replays"
+EVIDENCE = _OUT / "evidence"
 
 _REPLAY_PY = '''#!/venv/bin/python
 """Replay of one violation without the explorer: re-runs the real tool on pkg/ and shows what the oracle saw.
@@ -33,7 +34,7 @@ if not (here / "pkg").exists():
 tmp = pathlib.Path(tempfile.mkdtemp(prefix="replay-", dir="/dev/shm" if os.path.isdir("/dev/shm") else None))
 try:
     shutil.copytree(here / "pkg", tmp / "in")
-    env = dict(os.environ, PYTHONPATH="/repo/src", PYTHONDONTWRITEBYTECODE="1", MYPY_CACHE_DIR="/dev/null")
+    env = dict(os.environ, PYTHONPATH=os.environ.get("VERIF_REPO_SRC", "/repo/src"), PYTHONDONTWRITEBYTECODE="1", MYPY_CACHE_DIR="/dev/null")
     argv = ["/venv/bin/python", "-c", "import sys\\nfrom safeds_stubgen.main import main\\nsys.argv=['x']+sys.argv[1:]\\nmain()",
             "-s", str(tmp / "in" / case["src_rel"]), "-o", str(tmp / "out"), *case["argv"]]
     p = subprocess.run(argv, env=env, capture_output=True, text=True, cwd=tmp)
@@ -216,7 +217,7 @@ class Report:
             "wall_s": round(wall, 2),
             "violations": nviol,
         }
-        EVIDENCE.mkdir(exist_ok=True)
+        EVIDENCE.mkdir(parents=True, exist_ok=True)
         (EVIDENCE / f"{self.prop}.json").write_text(json.dumps(ev, indent=1, default=repr))
         print(
             f"[{self.prop}] tier={self.tier} evaluations={self.evaluations} distinct_nontrivial={len(self.distinct)} "
